@@ -862,10 +862,15 @@ func walkFails(v view) bool {
 
 // prefixFree says whether no key is a proper path prefix of another.
 func prefixFree(keys []string) bool {
-	sort.Strings(keys)
-	for i := 0; i+1 < len(keys); i++ {
-		if strings.HasPrefix(keys[i+1], keys[i]+"/") {
-			return false
+	set := map[string]bool{}
+	for _, k := range keys {
+		set[k] = true
+	}
+	for _, k := range keys {
+		for d := filepath.Dir(k); d != "." && d != "/"; d = filepath.Dir(d) {
+			if set[d] {
+				return false
+			}
 		}
 	}
 	return true
